@@ -27,6 +27,7 @@ readname_loop(char *packet, int packetlen, char **src, char *dst, size_t length,
 	char *dummy;
 	char *s;
 	char *d;
+	char *end;
 	int len;
 	int offset;
 	char c;
@@ -37,13 +38,20 @@ readname_loop(char *packet, int packetlen, char **src, char *dst, size_t length,
 	len = 0;
 	s = *src;
 	d = dst;
-	while(*s && len < length - 2) {
+	/* Never look at bytes at or after packet + packetlen: they are not part
+	   of this packet but whatever the receive buffer held before */
+	end = packet + packetlen;
+	while(s < end && *s && len < length - 2) {
 		c = *s++;
 
 		/* is this a compressed label? */
 		if ((c & 0xc0) == 0xc0) {
+			if (s >= end) {
+				/* second byte of the pointer is missing */
+				break;
+			}
 			offset = (((s[-1] & 0x3f) << 8) | (s[0] & 0xff));
-			if (offset > packetlen) {
+			if (offset >= packetlen) {
 				if (len == 0) {
 					/* Bad jump first in packet */
 					return 0;
@@ -58,6 +66,12 @@ readname_loop(char *packet, int packetlen, char **src, char *dst, size_t length,
 		}
 
 		while(c && len < length - 1) {
+			if (s >= end) {
+				/* label runs past the end of the packet */
+				dst[len++] = '\0';
+				(*src) = end + 1;
+				return len;
+			}
 			*d++ = *s++;
 			len++;
 
@@ -68,7 +82,7 @@ readname_loop(char *packet, int packetlen, char **src, char *dst, size_t length,
 			break; /* We used up all space */
 		}
 
-		if (*s != 0) {
+		if (s < end && *s != 0) {
 			*d++ = '.';
 			len++;
 		}
